@@ -107,7 +107,7 @@ def plan_jobs(prop, tier, rnd):
     elif prop == "C14":
         slices = [("T", 3), ("Y", 4), ("B", 3), ("F", 3), ("Z", 3), ("C", 3), ("V", 3)]
     elif prop == "C15":
-        slices = [("M", 3), ("Y", 4), ("B", 3), ("F", 3), ("V", 3), ("Z", 3)]
+        slices = [("M", 3), ("Y", 4), ("B", 3), ("F", 3), ("V", 3), ("Z", 3), ("T", 3)]
     else:
         slices = [("Y", 4), ("T", 3), ("B", 3), ("F", 3), ("C", 3), ("Z", 3), ("V", 3)]
     pools, stats = histories_for(slices, rnd)
@@ -340,14 +340,73 @@ def cli_ledger_jobs(prop, tier, rnd):
             job["ltcg"] = [365, 1, 366, 30][(i // 2) % 4]
         job["tag"] = f"cli:{country}:{shape}:{'sched' if sched else (method or 'default')}"
         jobs.append(job)
+    if prop == "C09":
+        # the same multi-asset input truncated at an instant T next to the full input (C09 as a relation between two runs, end to end): what
+        # the full run computed for the transactions up to T is what the run on the truncated input computed - also when the assets share a
+        # process, row numbers and whatever the engine keeps between assets
+        made = tries = 0
+        while made < (16 if q else 200) and tries < 5000:
+            tries += 1
+            assets = {"B1": rnd.choice(pools["Y"]), "B2": rnd.choice(pools[names[tries % len(names)]])}
+            ts = sorted({x["t"] for h in assets.values() for x in h})
+            if len(ts) < 3:
+                continue
+            cut = rnd.choice(ts[1:-1])
+            small = {a: [x for x in h if x["t"] <= cut] for a, h in assets.items()}
+            # after T: a new lot of the first asset followed by a taxable event of it; up to T: the second asset has made a real choice
+            late = [x for x in assets["B1"] if x["t"] > cut]
+            if not (late and late[0]["cls"] == "in" and len(late) >= 2) or any(not any(x["cls"] == "in" for x in h) for h in small.values()):
+                continue
+            if sum(x["cls"] == "in" for x in small["B2"]) < 2 or not any(x["cls"] != "in" for x in small["B2"]):
+                continue
+            country = ["us", "generic"][made % 2]
+            full = make_job(assets, country, rnd, shape="none", method=METHODS[1 + made % 3] if made % 4 else "fifo", perm=bool(made % 2))
+            full["observe"] = ["computed"]
+            if country == "generic":
+                full["ltcg"] = 365
+            full["tag"] = f"cli:{country}:full_of_pair:{full['args']['method']}"
+            full["group"] = made
+            tr = copy.deepcopy(full)
+            tr["assets"] = small
+            if "row_perm" in tr["conc"]["sheet"]:
+                tr["conc"]["sheet"]["row_perm"] = {a: [v for v in full["conc"]["sheet"]["row_perm"][a] if v < len(small[a])] for a in small}
+            tr["tag"] = full["tag"].replace("full_of_pair", "truncated")
+            tr["trunc_of"] = made
+            del tr["group"]
+            full["truncated_job"] = copy.deepcopy(tr)      # (kept with the full job so that a replay file holds the pair)
+            jobs += [full, tr]
+            made += 1
     return jobs, stats
+
+
+def attach_truncated(results, traces):
+    """the runs on truncated inputs become observations (prefix length k < m) of the traces of the full runs of their group"""
+    small = {r["job"]["trunc_of"]: r for r in results if "trunc_of" in r["job"]}
+    n = 0
+    for t in traces:
+        job = t["meta"].get("cli_job") or {}
+        r = small.get(job.get("group"))
+        if r is None or "group" not in job:
+            continue
+        name = t["meta"]["runs"][0]["asset"]
+        cd = (r["res"].get("computed") or {}).get(name)
+        k = len(r["job"]["assets"][name])
+        if r["res"]["exit"] != 0 or cd is None or cd.get("fr_all") is None:
+            t["lines"].append({"a": "Obs", "k": k, "from": common.MIN_DAY, "to": common.MAX_DAY, "neg": False, "status": "other", "acct": 0, "ex": True})
+        else:
+            obs = {"a": "Obs", "k": k, "from": common.MIN_DAY, "to": common.MAX_DAY, "neg": False, "status": "ok", "acct": 0, "ex": bool(cd.get("ex", True))}
+            obs.update({key: cd[key] for key in ("fr", "lab", "yr", "bal", "ins", "outs", "intras", "tev", "ppu", "sold")})
+            t["lines"].append(obs)
+        t["meta"]["runs"].append({"cli": r["job"].get("tag", ""), "asset": name, "args": r["job"]["args"], "truncated_to": k})
+        n += 1
+    return n
 
 
 def ledger_traces(res):
     """what one end-to-end run computed, per asset, as a trace for spec/Trace_Ledger.tla: the unfiltered fractions are the reference
     behaviour, the date-filtered ComputedData handed to the report generators is an observation of it"""
     job, r = res["job"], res["res"]
-    if r["exit"] != 0 or not r.get("computed"):
+    if r["exit"] != 0 or not r.get("computed") or "trunc_of" in job:
         return []
     a = job["args"]
     U = job["conc"]["U"]
